@@ -1165,31 +1165,21 @@ def heap_lines(rep, procs):
             rep.count("heap_objects_checked", d.get("objects", 0))
 
 
-def check(rep, tier, seed, variant="hooks"):
-    rng = random.Random(seed * 104729 + 15)
-    b = B.ensure(variant)
-    rep.builds.add(variant)
-    env = {"CHIBI_VERIF_HEAPCHECK": 1}
-    quick = tier == "quick"
-    n_groups = 2400 if quick else 110000
-    n_cyc = 500 if quick else 12000
-    n_deep = 6 if quick else 60
-    n_hist = 260 if quick else 20000
-
+def one_round(rep, real, rng, b, env, quick, rno, n_groups, n_cyc, n_deep, n_hist, tot):
     # ---- part (a)
     groups = []
     for i in range(n_groups):
-        g = gen_group(rng, "g%d" % i, exotic=(rng.random() < 0.35))
+        g = gen_group(rng, "r%dg%d" % (rno, i), exotic=(rng.random() < 0.35))
         g["form"] = group_form(g)
         groups.append(g)
     cyc = []
     for i in range(n_cyc):
-        g = gen_cyclic_group(rng, "c%d" % i)
+        g = gen_cyclic_group(rng, "r%dc%d" % (rno, i))
         g["form"] = group_form(g)
         cyc.append(g)
     deep = []
     for i in range(n_deep):
-        g = gen_deep_group(rng, "d%d" % i, quick)
+        g = gen_deep_group(rng, "r%dd%d" % (rno, i), quick)
         g["form"] = group_form(g)
         deep.append(g)
     res, procs = C.run_batches(b, IMPORTS, HEADER, [(g["id"], g["form"]) for g in groups], batch=150, env_extra=env,
@@ -1226,9 +1216,9 @@ def check(rep, tier, seed, variant="hooks"):
             rep.inconc("timeout", g["form"][:300])
     for g in retry[20:]:
         rep.inconc("timeout", g["form"][:300])
-    rep.extra["value_groups"] = len(groups)
-    rep.extra["cyclic_groups"] = len(cyc)
-    rep.extra["ordered_pairs_compared"] = pairs
+    tot["groups"] += len(groups)
+    tot["cyc"] += len(cyc)
+    tot["pairs"] += pairs
     for g in (groups[:3] + cyc[:2]):
         r = res.get(g["id"])
         rep.sample({"form": g["form"][:700], "observed": r.text.strip()[:400] if r else None})
@@ -1238,7 +1228,7 @@ def check(rep, tier, seed, variant="hooks"):
     for i in range(n_hist):
         api = "srfi69" if i % 2 == 0 else "srfi125"
         nops = rng.choice([60, 150, 300, 500])
-        h = gen_history(rng, "h%d" % i, api, nops)
+        h = gen_history(rng, "r%dh%d" % (rno, i), api, nops)
         if h:
             hists.append(h)
     ops = 0
@@ -1255,12 +1245,54 @@ def check(rep, tier, seed, variant="hooks"):
             for kd in kinds:
                 rep.case(("table", api, h["equiv"], kd, h["exotic"]), n=0)
             rep.case(None, n=done)
-    rep.extra["histories"] = len(hists)
-    rep.extra["table_ops"] = ops
+    tot["hists"] += len(hists)
+    tot["ops"] += ops
     if hists:
         rep.sample({"history": hists[0]["form"][:900]})
     heap_lines(rep, procs)
-    rep.extra["processes"] = len(procs)
+    tot["procs"] += len(procs)
+
+
+class SlimReport:
+    """Forwards to the Report but keeps full witnesses only for the first few violations of a signature
+    (thorough runs produce tens of thousands of occurrences of a known finding)."""
+
+    def __init__(self, rep, keep=20):
+        self._rep = rep
+        self._n = {}
+        self._keep = keep
+
+    def __getattr__(self, name):
+        return getattr(self._rep, name)
+
+    def violation(self, sig, wit):
+        key = tuple(sorted((k, str(v)) for k, v in sig.items()))
+        self._n[key] = self._n.get(key, 0) + 1
+        if self._n[key] > self._keep:
+            wit = {"note": "witness omitted: more than %d occurrences of this signature in the run" % self._keep}
+        self._rep.violation(sig, wit)
+
+
+def check(rep, tier, seed, variant="hooks"):
+    real = rep
+    rep = SlimReport(real)
+    rng = random.Random(seed * 104729 + 15)
+    b = B.ensure(variant)
+    real.builds.add(variant)
+    env = {"CHIBI_VERIF_HEAPCHECK": 1}
+    quick = tier == "quick"
+    # (groups, cyclic groups, deep groups, histories) per round; rounds bound the memory held at any time
+    rounds = [(2400, 500, 6, 260)] if quick else [(5500, 600, 3, 1000)] * 20
+    tot = {"groups": 0, "cyc": 0, "pairs": 0, "hists": 0, "ops": 0, "procs": 0}
+    for rno, (n_groups, n_cyc, n_deep, n_hist) in enumerate(rounds):
+        one_round(rep, real, rng, b, env, quick, rno, n_groups, n_cyc, n_deep, n_hist, tot)
+    real.extra["value_groups"] = tot["groups"]
+    real.extra["cyclic_groups"] = tot["cyc"]
+    real.extra["ordered_pairs_compared"] = tot["pairs"]
+    real.extra["histories"] = tot["hists"]
+    real.extra["table_ops"] = tot["ops"]
+    real.extra["processes"] = tot["procs"]
+    rep = real
     rep.rule = ("(a) value groups: 4-8 members = the same abstract value by different routes (literal, arithmetic leaving spare "
                 "bignum words, parsed, string-set! with and without width change, substring/append/ports/shared byte store, "
                 "list/vector/bytevector constructors ...) plus near misses (value +-1, other exactness, other case, one element "
